@@ -125,6 +125,7 @@ class C06(StrCheck):
     def jobs(self, tier, seed):
         import p_buffer
         J = StrCheck.jobs(self, tier, seed)
+        J += sharded("c06-wide", vlib.build("exec_strops"), ["--gen", "cmpw"], 4)
         bc = p_buffer.BufferCheck()
         e = vlib.build("exec_buffer")
         sched = bc.schedule("quick", faults=False)         # the 2-slot graph has every (state, observe) edge
@@ -170,8 +171,8 @@ class C07(StrCheck):
 class C08(StrCheck):
     pid = "C08"
     gen, rand_gen, rand_alpha = "c08", "c08rand", "97,98,32,0"
-    args_quick = ["--alpha", "97,98,32,0", "--maxlen", "3", "--nlen", "2"]
-    args_thorough = ["--alpha", "97,98,32,0", "--maxlen", "4", "--nlen", "3"]
+    args_quick = ["--alpha", "97,65,98,32,0", "--maxlen", "3", "--nlen", "2"]
+    args_thorough = ["--alpha", "97,65,98,32,0", "--maxlen", "4", "--nlen", "2"]
     shards_quick, shards_thorough = 4, 32
     level_text = ("TLC checks the clamp and reassembly laws of the reference on bounded strings; substr/left/right/trim/before/after are executed "
                   "for every string of each size class with starts over the signed range and counts over the unsigned range (incl. counts within "
